@@ -110,11 +110,47 @@ def cmdIndexed (j : J) : Except String J := do
                 ("counts", J.arr (ix.counts.map J.ofNat)),
                 ("index", J.arr (ix.index.map J.ofNat))]
 
+/-- `wls`: the model's weighted log-sum (`lnLCompressed` = `weightedLogSum` over `indexed`) and
+`fullLength` on integer keys with the integer-valued `g key = -(first component)`; the harness runs the
+real numba `get_log_sum_across_sites` / `get_full_length_likelihoods` on likelihoods `2^g`
+(so `log` is exact up to the factor `ln 2`) -/
+def cmdWls (j : J) : Except String J := do
+  let vals ← (← j.get "values").toListOf (fun x => x.toListOf J.toInt)
+  let g : List Int → Int := fun k => - k.headD 0
+  return J.obj [("wls", J.ofInt (lnLCompressed g vals)),
+                ("plain", J.ofInt (lnLPlain g vals)),
+                ("full", J.arr ((fullLength g vals).map J.ofInt))]
+
+def absR (x : Rat) : Rat := if x < 0 then -x else x
+def maxOver (n : Nat) (f : Nat → Rat) : Rat :=
+  (List.range n).foldl (fun acc i => let x := f i; if acc < x then x else acc) 0
+
+/-- `hyp`: how far the implementation's own float64 matrices are from the hypotheses of the C11
+theorems, in exact arithmetic: `db` = max |π i · P i j − π j · P j i| (detailed balance, `lh_reroot_*`),
+`rows` = max |Σ_j P i j − 1| (row-stochastic, C02 `column_probs_sum_one`), and — when `P1`, `P2` are
+given — `split` = max |(matMul m P1 P2) i j − P i j| (`lh_edge_split`) -/
+def cmdHyp (j : J) : Except String J := do
+  let m ← (← j.get "m").toNat
+  let pi := vecFn (← ratVec (← j.get "pi"))
+  let P := matFn (← ratMat (← j.get "P"))
+  let db := maxOver m fun i => maxOver m fun k => absR (pi i * P i k - pi k * P k i)
+  let rows := maxOver m fun i => absR (sumOver m (fun k => P i k) - 1)
+  let split ← match j.get? "P1", j.get? "P2" with
+    | some a, some b => do
+      let P1 := matFn (← ratMat a)
+      let P2 := matFn (← ratMat b)
+      let Q := matMul m P1 P2
+      pure (J.ofRat (maxOver m fun i => maxOver m fun k => absR (Q i k - P i k)))
+    | _, _ => pure J.null
+  return J.obj [("db", J.ofRat db), ("rows", J.ofRat rows), ("split", split)]
+
 def handle (cmd : String) (j : J) : Except String J :=
   match cmd with
   | "lf" => cmdLf j
   | "clf" => cmdClf j
   | "indexed" => cmdIndexed j
+  | "wls" => cmdWls j
+  | "hyp" => cmdHyp j
   | _ => throw s!"unknown command {cmd}"
 
 end PruneCmds
